@@ -27,7 +27,7 @@ def _key(c):
     return tuple(str(x) for x in c)
 
 
-def run(ctx):
+def _run_rules(ctx):
     rep, f = ctx.rep, ctx.facts
     rep.trust('pk/sym.py (+ nalgebra Point model), pk/poly.py')
     rep.assume('real-number semantics; polygon-level geometry (edge crossing <=> overlap of congruent convex polygons, parallel '
@@ -315,7 +315,10 @@ def _ops(ctx):
     shape_transform_obligations(ctx, 'R5', ALL_SHAPES[:2])
     rep, f = ctx.rep, ctx.facts
     for fname, fields, pts in (('atom2_ops.rs', ['radius'], ['position']), ('line2_ops.rs', [], ['start', 'end'])):
-        bodies = [b for b in f.bodies.values() if b.file.endswith(fname) and b.fn_name == 'mul' and not b.is_closure]
+        # (selected by what they are — `impl Mul<..Transform2..> for ..Atom2..` and the reverse — not by the file they live in)
+        comp = {'atom2_ops.rs': 'atom2::Atom2', 'line2_ops.rs': 'line2::Line2'}[fname]
+        bodies = [b for b in f.bodies.values() if b.fn_name == 'mul' and not b.is_closure and (b.impl_trait or '').endswith('ops::Mul') and
+                  'transform::Transform2' in b.path and comp in b.path]
         rep.floor('R5', 'Mul impls in %s' % fname, len(bodies), 8)
         for b in bodies:
             rep.saw(b)
@@ -341,3 +344,67 @@ def _ops(ctx):
             rep.check(ok, 'R5', 'component-moved-rigidly:%s' % b.path, where(b),
                       '%s = T * %s; %s unchanged' % (pts, pts, fields or 'no scalar fields'),
                       'transforming a component does not move every point by T / changes its size %s' % why)
+
+
+def run(ctx):
+    _run_rules(ctx)
+    from .common import import_obligations
+    # a radial polygon is the closed polygon through its radial vertices (C02.R4)
+    import_obligations(ctx, 'C02', 'R6', only_rules={'R4'}, floor=1, only_instances=lambda k: 'radial' in k or 'polygon' in k)
+    _trimer_siblings(ctx)
+
+
+def _trimer_siblings(ctx):
+    """R7: the two trimer constructors (hard discs, Lennard-Jones particles) build ONE geometry from (radius, angle, distance): the
+    same three centres, and disc radius = sigma / 2 particle by particle (the central particle of unit radius, the two outer
+    ones of the given radius).  Sibling implementations of one interface must agree; a slip in either is a shape nobody asked for."""
+    from ..sym import SYM, SymEx, sfield
+    from ..terms import Norm, NotNumeric
+    rep, f = ctx.rep, ctx.facts
+    got = {}
+    for adt, key in (('shape::molecular_shape2::MolecularShape2', 'hard'), ('shape::lj_shape::LJShape2', 'lj')):
+        b = f.one(self_adt=adt, name='from_trimer')
+        if b is None:
+            continue
+        rep.saw(b)
+        sx = SymEx(f)
+        try:
+            outs = sx.run(b, [SYM('radius'), SYM('angle'), SYM('distance')])
+        except Exception:      # noqa: BLE001
+            outs = []
+        if len(outs) != 1 or sx.aborted:
+            continue
+        r = sx.deep(outs[0].st, outs[0].ret)
+        items = sx.as_seq(outs[0].st, sfield(r, 'items')) if isinstance(r, tuple) and r[0] == 'struct' and sfield(r, 'items') is not None else None
+        if items is None:
+            # the field may have another name: the one sequence-valued field
+            seqs = [v for k, v in (r[3] if isinstance(r, tuple) and r[0] == 'struct' else []) if isinstance(v, tuple) and v[0] == 'seq']
+            items = list(seqs[0][1]) if len(seqs) == 1 else None
+        if items is not None:
+            got[key] = (b, [sx.deep(outs[0].st, it) for it in items])
+    if len(got) != 2:
+        # a cross-check between siblings: where one of them does not evaluate to a plain list of particles (a fallible
+        # constructor, a validating wrapper) there is nothing to compare, and nothing is claimed
+        rep.note('R7: the two from_trimer constructors could not both be evaluated by value (%s); not compared' % sorted(got))
+        return
+    n = Norm()
+    (bh, hard), (bl, lj) = got['hard'], got['lj']
+    ok = len(hard) == len(lj) == 3
+    why = '%d discs, %d particles' % (len(hard), len(lj))
+    if ok:
+        try:
+            for i, (h, l) in enumerate(zip(hard, lj)):
+                hp, lp = sfield(h, 'position'), sfield(l, 'position')
+                if not (n.rf(sfield(hp, 'x')).equals(n.rf(sfield(lp, 'x'))) and n.rf(sfield(hp, 'y')).equals(n.rf(sfield(lp, 'y')))):
+                    ok, why = False, 'particle %d sits at different places in the two shapes' % i
+                    break
+                if not (n.rf(sfield(l, 'sigma')).equals(n.rf(sfield(h, 'radius')) * n.rf(('num', 2)))):
+                    ok, why = False, 'particle %d: disc radius %s but sigma %s (sigma = 2 * radius expected)' % (
+                        i, n.rf(sfield(h, 'radius')).canon()[:40], n.rf(sfield(l, 'sigma')).canon()[:40])
+                    break
+            else:
+                why = 'three particles, same centres, sigma = 2 * radius each'
+        except (NotNumeric, TypeError, AttributeError) as ex:
+            ok, why = False, 'not comparable: %s' % str(ex)[:80]
+    rep.check(ok, 'R7', 'trimer-constructors-agree', where(bh), why,
+              'MolecularShape2::from_trimer and LJShape2::from_trimer do not build the same geometry: %s' % why)
